@@ -557,10 +557,12 @@ def register_pretty(type=None, predicate=None):
                 # class, we can call register_pretty(cls)(fn)
                 _DEFERRED_DISPATCH_BY_NAME[type] = fn
             else:
+                pretty_dispatch.register(type, partial(_run_pretty, fn))
                 # A later registration replaces an earlier one, also when
                 # the earlier one was made by name and is still deferred.
+                # Only drop the deferred entry once the new printer is
+                # live, so that other threads never find neither.
                 _DEFERRED_DISPATCH_BY_NAME.pop(get_deferred_key(type), None)
-                pretty_dispatch.register(type, partial(_run_pretty, fn))
         else:
             assert callable(predicate)
             _PREDICATE_REGISTRY.append((predicate, fn))
@@ -592,9 +594,11 @@ def is_registered(
             deferred_key = get_deferred_key(type)
             if deferred_key in _DEFERRED_DISPATCH_BY_NAME:
                 if register_deferred:
-                    deferred_dispatch = _DEFERRED_DISPATCH_BY_NAME.pop(
+                    # register_pretty drops the deferred entry
+                    # after the printer went live.
+                    deferred_dispatch = _DEFERRED_DISPATCH_BY_NAME[
                         deferred_key
-                    )
+                    ]
                     register_pretty(type)(deferred_dispatch)
                 return True
 
@@ -610,9 +614,9 @@ def is_registered(
                 deferred_key = get_deferred_key(supertype)
                 if deferred_key in _DEFERRED_DISPATCH_BY_NAME:
                     if register_deferred:
-                        deferred_dispatch = _DEFERRED_DISPATCH_BY_NAME.pop(
+                        deferred_dispatch = _DEFERRED_DISPATCH_BY_NAME[
                             deferred_key
-                        )
+                        ]
                         register_pretty(supertype)(deferred_dispatch)
                     return True
         return pretty_dispatch.dispatch(type) is not _BASE_DISPATCH
